@@ -342,6 +342,8 @@ class Match(Entry):
         if self.multi:
             # match_multi ignores presorted: also try presorted=True on unsorted first arrays
             for c in cs:
+                if c.get("family") == "gen-counterexample":
+                    continue
                 if r.random() < 0.5:
                     c["presorted"] = True
                     if not c["scalar1"] and r.random() < 0.7:
@@ -959,7 +961,8 @@ def gen_sweeps(ctx, big):
                                    "scalar2": False, "native": True, "family": "gen-counterexample"})
             EXTRA["match"].append({"kind": "U", "a1": [[97 + x] for x in z[1:1 + n1]], "a2": [[97 + x] for x in z[1 + n1:]], "presorted": False,
                                    "scalar1": False, "scalar2": False, "native": True, "family": "gen-counterexample"})
-            if z[1:1 + n1] == sorted(z[1:1 + n1]):
+            if z[1:1 + n1] == sorted(z[1:1 + n1]) or "match_multi_g" in t:
+                # presorted=True: meaningful for match on a sorted first array, and for match_multi (which must ignore it) always
                 EXTRA["match"].append({"kind": "i8", "a1": z[1:1 + n1], "a2": z[1 + n1:], "presorted": True, "scalar1": False,
                                        "scalar2": False, "native": True, "family": "gen-counterexample"})
         elif what == "unique":
